@@ -163,7 +163,7 @@ class Graph:
         ns, file = load_source(src, self.ns, mid=mid, tag=self.tag, shared=True)
         self.files.append(file)
         fn = ns["f"]
-        fn.__annotations__ = {"x": self.env.cls(ms["t"])}
+        fn.__annotations__ = {"x": self._cls(ms["t"])}
         self.fns[mid] = fn
         self.mspecs[mid] = dict(ms, owner=owner_id)
         return fn
@@ -230,6 +230,10 @@ class Graph:
         n.own.setdefault(sig, []).append(ms["mid"])
 
     # ---- reference resolution on one node ------------------------------------------------------------
+    def _cls(self, tn):
+        """class by name; "type[int]" is the annotation type[int] (classes passed as arguments)"""
+        return type[self.env.cls(tn[5:-1])] if tn.startswith("type[") else self.env.cls(tn)
+
     def resolve(self, n, v):
         """winner mid for value v on node n's effective table, or None (no method).
         Types are builtins in single-inheritance chains, so the most specific applicable class
@@ -237,6 +241,13 @@ class Graph:
         tab = n.table()
         app = []
         for (tn, prio), st in tab.items():
+            if tn.startswith("type["):
+                # type[X] applies to the classes under X and is narrower than any plain class a class object is an
+                # instance of (object)
+                c = self.env.cls(tn[5:-1])
+                if isinstance(v, type) and issubclass(v, c):
+                    app.append((prio, 100 + len(v.__mro__) - v.__mro__.index(c), st[-1][0]))
+                continue
             c = self.env.cls(tn)
             if isinstance(v, c):
                 app.append((prio, len(type(v).__mro__) - type(v).__mro__.index(c), st[-1][0]))
